@@ -270,7 +270,8 @@ where
         rng_seed: RngSeed::Fixed(ctx.rng_seed(sub)),
         max_shrink_iters,
         max_shrink_time: 120_000,
-        max_global_rejects: 1_000_000,
+        max_global_rejects: 10_000_000,
+        max_local_rejects: 10_000_000,
         verbose: 0,
         ..Config::default()
     };
